@@ -437,7 +437,7 @@ PROPS = {
         "pkgs": [MOD + "/layers"],
         "generate": gen_c06,
         "must_reach_all": ["decoded"],
-        "bounds": "every claimed type with both DecodeFromBytes and SerializeTo: layer obtained by decoding n symbolic bytes (n symbolic in 0..14 quick / 0..24 thorough), written over its payload with FixLengths (and ComputeChecksums in thorough; checksum values themselves are C08's subject), decoded again, then written once more; compared: all exported fields (lists element-wise in order), payload, error, truncation flag",
+        "bounds": "every claimed type with both DecodeFromBytes and SerializeTo: layer obtained by decoding n symbolic bytes (n symbolic; quick: 0..14, or min..min+4 for the 21 types whose fixed header is longer than that (props.C06_MIN, e.g. IPv4 20..24, IPv6 40..44, DHCPv4 240..244), 0..8 for the IPv6 hop-by-hop/destination headers; thorough: 0..24, or 0..min+8), written over its payload with FixLengths (and ComputeChecksums in thorough; checksum values themselves are C08's subject), decoded again, then written once more; compared: all exported fields except length/checksum fields that SerializeTo is documented to rewrite (lists element-wise in order), payload, error, truncation flag; every unit must reach a successful decode (label decoded) or the run is inconclusive",
         "outside": "layers built from in-range field values rather than by decoding; stacks through SerializeLayers; payloads > 64 KiB; layer types Dot11, RadioTap, GTPv1U, Geneve, DNS (counterexamples not triaged or exploration too large: not claimed, see props.C06_NOT_CLAIMED)",
         "quick": {"timeout": 500, "qtimeout": 20000, "fbtimeout": 60000, "maxpaths": 200, "partial_ok_all": True, "unsupported_ok": True},
         "thorough": {"timeout": 5000, "maxpaths": 3000, "partial_ok_all": True, "unsupported_ok": True},
@@ -446,7 +446,7 @@ PROPS = {
         "pkgs": [MOD + "/layers"],
         "generate": gen_c07,
         "must_reach_all": ["decoded"],
-        "bounds": "every type with both DecodeFromBytes and SerializeTo: layer decoded from n symbolic bytes (n in 0..20 quick / 0..28 thorough), all four FixLengths/ComputeChecksums combinations; serialized into a fresh buffer, a buffer that held 64 symbolic garbage bytes and was cleared, and a pre-sized buffer; outputs compared bytewise",
+        "bounds": "every claimed type with both DecodeFromBytes and SerializeTo: layer decoded from n symbolic bytes (same length ranges as C06), FixLengths on/off (ComputeChecksums on/off as well in thorough); serialized into a fresh buffer, a buffer that held 64 symbolic garbage bytes and was cleared, and a pre-sized buffer (hints 0..2); outputs compared bytewise; ARP: the two address-size octets are enumerated 0..3 instead of symbolic; every unit must reach a successful decode",
         "outside": "layer values built through public fields without decoding; layer types Dot11, RadioTap, GTPv1U, Geneve, DNS (not claimed, as in C06)",
         "quick": {"timeout": 500, "qtimeout": 20000, "fbtimeout": 60000, "maxpaths": 200, "partial_ok_all": True, "unsupported_ok": True},
         "thorough": {"timeout": 5000, "maxpaths": 3000, "partial_ok_all": True, "unsupported_ok": True},
